@@ -51,11 +51,14 @@ def decMeas : Sexp → Option Meas
 /-- a mutation of a set; `rem` carries a whole definition whose signature is the one removed -/
 inductive HOp (α : Type) where
   | ins (v : α) | rem (v : α) | ext (vs : List α)
+  /-- `Calibrations::extend(other)` / `Program + Program`: `other` is itself a set built from `vs` -/
+  | extFrom (vs : List α)
 
 def decOp {α : Type} (dec : Sexp → Option α) : Sexp → Option (HOp α)
   | .list [.atom "ins", c] => (dec c).map .ins
   | .list [.atom "rem", c] => (dec c).map .rem
   | .list (.atom "ext" :: cs) => (cs.mapM dec).map .ext
+  | .list (.atom "extfrom" :: cs) => (cs.mapM dec).map .extFrom
   | _ => none
 
 def decHist {α : Type} (dec : Sexp → Option α) : Sexp → Option (List (HOp α))
@@ -96,6 +99,7 @@ def modelSteps (cs : List α) : List (HOp α) → List (Ret × List α)
       | .ins v => let r := replace sig cs v; ((match r.2 with | some o => .body (bodyOf o) | none => .none), r.1)
       | .rem v => let r := remove sig cs (sig v); (.flag r.2, r.1)
       | .ext vs => (.none, extend sig cs vs)
+      | .extFrom vs => (.none, extend sig cs (extend sig [] vs))
     (ret, next) :: modelSteps next ops
 
 /-- the specification evaluated on the implementation's trace: every `insert` satisfies the insertion
@@ -110,6 +114,24 @@ def stepsSpecB (prev : List α) : List (HOp α) → List (Ret × List α) → Bo
 
 end Generic
 
+/-- what `CalibrationSet::get(signature of c)` returns on the final set, for the definitions named in the history -/
+def expectedGets {α σ : Type} [DecidableEq σ] (sig : α → σ) (bodyOf : α → Nat) (final : List α) (ops : List (HOp α)) : List Sexp :=
+  let one (c : α) : Sexp := match final.find? (fun d => sig d = sig c) with
+    | some d => .atom (toString (bodyOf d))
+    | none => .atom "none"
+  ops.flatMap fun
+    | .ins c => [one c]
+    | .rem c => [one c]
+    | .ext cs => (cs.take 4).map one
+    | .extFrom cs => (cs.take 4).map one
+
+/-- `Calibrations::expand` and `expand_with_detail` must both expand to the body of the definition that
+`get_match_for_*` returns, and the detail must name that definition as its source -/
+def expectedExp {α : Type} (bodyOf : α → Nat) (set : List α) (ans : List (Option Nat)) : List Sexp :=
+  ans.map fun a => match a.bind (set[·]?) with
+    | some c => .list [.atom "e", .atom (toString (bodyOf c)), .atom (toString (bodyOf c)), .atom "true"]
+    | none => .list [.atom "e", .atom "none", .atom "none", .atom "true"]
+
 def lastSet {α : Type} (steps : List (Ret × List α)) : List α :=
   match steps.getLast? with
   | some (_, s) => s
@@ -118,14 +140,19 @@ def lastSet {α : Type} (steps : List (Ret × List α)) : List α :=
 private def opTags {α : Type} (ops : List (HOp α)) (steps : List (Ret × List α)) : List String :=
   (if ops.any (fun | .rem _ => true | _ => false) then ["op-remove"] else []) ++
   (if ops.any (fun | .ext _ => true | _ => false) then ["op-extend"] else []) ++
+  (if ops.any (fun | .extFrom _ => true | _ => false) then ["op-extend-from-set"] else []) ++
   (if steps.any (fun s => match s.1 with | .body _ => true | _ => false) then ["replaced-in-place"] else []) ++
   [s!"ops{min ops.length 9}", s!"set{min (lastSet steps).length 9}"]
 
 def handle (inp out : Sexp) : CaseResult :=
   match inp with
-  | .list [.atom "gate", hist, .list (.atom "queries" :: qs)] =>
+  | .list [.atom "sanity", _] =>
+    { agree := out == .list [.atom "bad"], specOk := out == .list [.atom "bad"], nontrivial := false, tags := ["sanity"],
+      detail := s!"Expression::eq disagrees with the structural key on {out}" }
+  | .list [.atom route, hist, .list (.atom "queries" :: qs)] =>
+   if route == "gate" || route == "gatep" then
     match decHist decCal hist, qs.mapM decGate, out with
-    | some ops, some queries, .list [.atom "out", stepsS, ansS] =>
+    | some ops, some queries, .list [.atom "out", stepsS, ansS, .list (.atom "exp" :: expS), .list (.atom "gets" :: getsS)] =>
       match decSteps decCal stepsS, decAns ansS with
       | some steps, some ans =>
         let mSteps := modelSteps Cal.sig Cal.body [] ops
@@ -133,14 +160,16 @@ def handle (inp out : Sexp) : CaseResult :=
         let mAns := queries.map (getMatchForGate mSet)
         let iSet := lastSet steps
         let specOk := stepsSpecB Cal.sig [] ops steps && ans.length == queries.length &&
-          (queries.zip ans).all (fun (g, a) => gateLookupSpecB iSet g a)
+          (queries.zip ans).all (fun (g, a) => gateLookupSpecB iSet g a) &&
+          -- every lookup route agrees with `get_match_for_gate` on the implementation's own set
+          expS == expectedExp Cal.body iSet ans && getsS == expectedGets Cal.sig Cal.body iSet ops
         let nMatch (g : Gate) := (iSet.filter (fun c => gateMatchesB c g)).length
         let tie (g : Gate) := let ms := iSet.filter (fun c => gateMatchesB c g)
           ms.any (fun c => (ms.filter (fun d => nFixed d == nFixed c)).length ≥ 2)
         let mixed (g : Gate) := let ms := iSet.filter (fun c => gateMatchesB c g)
           ms.any (fun c => ms.any (fun d => nFixed d != nFixed c))
         let paramMatch (g : Gate) := g.params.length > 0 && nMatch g > 0
-        let tags := ["gate"] ++ opTags ops steps ++
+        let tags := [route] ++ opTags ops steps ++
           (if queries.any (nMatch · == 0) then ["q-nomatch"] else []) ++
           (if queries.any (nMatch · == 1) then ["q-unique"] else []) ++
           (if queries.any (nMatch · ≥ 2) then ["q-multi"] else []) ++
@@ -151,15 +180,16 @@ def handle (inp out : Sexp) : CaseResult :=
           (if queries.any (nMatch · > 32) then ["q-over32-matches"] else []) ++
           (if queries.any (fun g => g.qubits.any (fun q => match q with | .placeholder _ => true | _ => false))
             then ["q-placeholder"] else [])
-        { agree := decide (mSteps = steps) && decide (mAns = ans), specOk := specOk,
+        { agree := decide (mSteps = steps) && decide (mAns = ans) && expS == expectedExp Cal.body mSet mAns &&
+            getsS == expectedGets Cal.sig Cal.body mSet ops, specOk := specOk,
           nontrivial := queries.any (nMatch · ≥ 2) || steps.any (fun s => match s.1 with | .body _ => true | _ => false),
           tags := tags,
           detail := s!"model steps={repr mSteps} ans={mAns}; impl steps={repr steps} ans={ans}" }
       | _, _ => .bad s!"undecodable output {out}"
     | _, _, _ => .bad s!"undecodable gate case {inp} / {out}"
-  | .list [.atom "meas", hist, .list (.atom "queries" :: qs)] =>
+   else if route == "meas" || route == "measp" then
     match decHist decMCal hist, qs.mapM decMeas, out with
-    | some ops, some queries, .list [.atom "out", stepsS, ansS] =>
+    | some ops, some queries, .list [.atom "out", stepsS, ansS, .list (.atom "exp" :: expS), .list (.atom "gets" :: getsS)] =>
       match decSteps decMCal stepsS, decAns ansS with
       | some steps, some ans =>
         let mSteps := modelSteps MCal.sig MCal.body [] ops
@@ -167,9 +197,10 @@ def handle (inp out : Sexp) : CaseResult :=
         let mAns := queries.map (getMatchForMeasurement mSet)
         let iSet := lastSet steps
         let specOk := stepsSpecB MCal.sig [] ops steps && ans.length == queries.length &&
-          (queries.zip ans).all (fun (m, a) => measLookupSpecB iSet m a)
+          (queries.zip ans).all (fun (m, a) => measLookupSpecB iSet m a) &&
+          expS == expectedExp MCal.body iSet ans && getsS == expectedGets MCal.sig MCal.body iSet ops
         let ms (m : Meas) := iSet.filter (fun c => measMatchesB c m)
-        let tags := ["meas"] ++ opTags ops steps ++
+        let tags := [route] ++ opTags ops steps ++
           (if queries.any (fun m => (ms m).length == 0) then ["m-nomatch"] else []) ++
           (if queries.any (fun m => (ms m).length == 1) then ["m-unique"] else []) ++
           (if queries.any (fun m => (ms m).length ≥ 2) then ["m-multi"] else []) ++
@@ -178,12 +209,14 @@ def handle (inp out : Sexp) : CaseResult :=
           (if queries.any (fun m => (ms m).any (fun c => exactRank c == 1) && (ms m).any (fun c => exactRank c == 0))
             then ["m-exact-beats-variable"] else []) ++
           (if queries.any (fun m => ((ms m).filter (fun c => exactRank c == 1)).length ≥ 2) then ["m-tie-later-wins"] else [])
-        { agree := decide (mSteps = steps) && decide (mAns = ans), specOk := specOk,
+        { agree := decide (mSteps = steps) && decide (mAns = ans) && expS == expectedExp MCal.body mSet mAns &&
+            getsS == expectedGets MCal.sig MCal.body mSet ops, specOk := specOk,
           nontrivial := queries.any (fun m => (ms m).length ≥ 2) || steps.any (fun s => match s.1 with | .body _ => true | _ => false),
           tags := tags,
           detail := s!"model steps={repr mSteps} ans={mAns}; impl steps={repr steps} ans={ans}" }
       | _, _ => .bad s!"undecodable output {out}"
     | _, _, _ => .bad s!"undecodable meas case {inp} / {out}"
+   else .bad s!"undecodable input {inp}"
   | .list [.atom "proggate", hist, g] =>
     match decHist decCal hist, decGate g with
     | some ops, some gate =>
